@@ -30,6 +30,8 @@ RULE = ('Hypothesis-generated base scripts: a non-decreasing sequence of clock r
         'same object, the next start() begins with dt 0. evaluations = base scripts, implementation_executions '
         '= runs incl. fault positions. '
         'In ~8% of the cases the first start() runs 70-520 iterations (faults then at sampled iterations around the powers of two). '
+        ''
+        'In a quarter of the cases the loop under test is not desper.default_loop (that one holds a bystander world) and every other world is a falsy World subclass. '
         'Non-trivial = a base script with >= 3 iterations and >= 2 distinct '
         'positive deltas and >= 2 processors in some world, or a restart. Distinct = sha1 of canonical JSON.')
 ASSUMPTIONS = [
